@@ -9,11 +9,11 @@ Model of the summary figures computed by the report writers:
 * html      `get_stats`, `HtmlStats::add`, `get_dirs_result`,
             `get_percentage_of_covered_lines`, `gen_badge`, `gen_coverage_json`
                                      src/html.rs 16-26, 214-297, 574-654
-* markdown  `output_markdown`        src/output.rs 621-688
+* markdown  `output_markdown`        src/output.rs 621-700
 * ade       `output_activedata_etl`  src/output.rs 74-182
 
 Numbers are `Nat`; every rate is an exact rational `Rate` (numerator / denominator). A `Rate` with
-denominator 0 is what the Rust code computes as `0.0 / 0.0` (NaN, printed `NaN%` resp. `null`).
+denominator 0 is what the Rust code computes as `0.0 / 0.0` (NaN, serialised as `null` by ade).
 Rust's f32/f64 arithmetic and formatting are NOT modelled: the harness compares the printed figure
 with the exact rational within the printed precision.
 Maps (`BTreeMap`, `FxHashMap`) are association lists observed through `get?`, counts and sums, so
@@ -483,12 +483,16 @@ def html (rs : List FileIn) : HtmlReport :=
     badge := htmlPercentFloor g.stats.coveredLines g.stats.totalLines
     json := htmlPercent g.stats.coveredLines g.stats.totalLines }
 
-/-! ## markdown (output.rs 621-688) -/
+/-! ## markdown (output.rs 621-700) -/
+
+/-- the local `fn percent(covered, total)` without the float: `100·covered/total`, and 100 when
+`total = 0` (nothing to cover = fully covered, as in the HTML report) -/
+def mdPercent (covered total : Nat) : Rate := if total = 0 then ⟨100, 1⟩ else ⟨100 * covered, total⟩
 
 structure MdRow where
   covered : Nat
   total : Nat
-  /-- `covered as f32 * 100.0 / len as f32`: 0/0 when the file has no lines -/
+  /-- `percent(covered, result.lines.len())` -/
   rate : Rate
 deriving DecidableEq, Repr
 
@@ -496,7 +500,7 @@ structure MdReport where
   rows : List MdRow
   totalCovered : Nat
   totalLines : Nat
-  /-- `total_covered as f32 * 100.0 / total_lines as f32` -/
+  /-- `percent(total_covered, total_lines)` -/
   rate : Rate
 deriving Repr
 
@@ -504,13 +508,13 @@ deriving Repr
 def mdRow (c : Cov) : MdRow :=
   let missed := countZero c.lines
   let covered := c.lines.length - missed
-  { covered := covered, total := c.lines.length, rate := ⟨100 * covered, c.lines.length⟩ }
+  { covered := covered, total := c.lines.length, rate := mdPercent covered c.lines.length }
 
 def markdown (rs : List FileIn) : MdReport :=
   let rows := rs.map fun r => mdRow r.cov
   let tl := rows.foldl (fun a r => a + r.total) 0
   let tc := rows.foldl (fun a r => a + r.covered) 0
-  { rows := rows, totalCovered := tc, totalLines := tl, rate := ⟨100 * tc, tl⟩ }
+  { rows := rows, totalCovered := tc, totalLines := tl, rate := mdPercent tc tl }
 
 /-! ## ade (output.rs 74-182) -/
 
